@@ -113,3 +113,28 @@ func stringGetOwnProperty(obj *object, name string) *property {
 	}
 	return nil
 }
+
+// stringDefineOwnProperty is 8.12.9 for String objects: the index properties of
+// the string value (15.5.5.2) are own properties that are not in the property
+// table. They are not writable and not configurable, so the only redefinition
+// 8.12.9 accepts is one that changes nothing.
+func stringDefineOwnProperty(obj *object, name string, descriptor property, throw bool) bool {
+	if _, exists := obj.readProperty(name); exists {
+		return objectDefineOwnProperty(obj, name, descriptor, throw)
+	}
+	prop := stringGetOwnProperty(obj, name)
+	if prop == nil {
+		return objectDefineOwnProperty(obj, name, descriptor, throw)
+	}
+	accepted := !descriptor.isAccessorDescriptor() &&
+		!descriptor.configurable() &&
+		(!descriptor.enumerateSet() || descriptor.enumerable()) &&
+		(!descriptor.writeSet() || !descriptor.writable())
+	if value, isValue := descriptor.value.(Value); accepted && isValue {
+		accepted = sameValue(value, prop.value.(Value))
+	}
+	if !accepted {
+		return obj.runtime.typeErrorResult(throw)
+	}
+	return true
+}
